@@ -4,6 +4,7 @@ import (
 	"fmt"
 	"go/token"
 	"go/types"
+	"strings"
 
 	"golang.org/x/tools/go/ssa"
 
@@ -587,6 +588,9 @@ func c08ClientType(c *core.Ctx, nt *types.Named, fam []*ssa.Function) {
 					}
 					// `if s.err == nil { s.err = <error> }; return s.err`: the field read at the return is known
 					// non-nil only if every path from the probe stores a non-nil error into it or tested it non-nil
+					if core.AllOrigins(l.V, func(o ssa.Value) bool { return o != l.V && core.ClassifyErr(o, r) == core.ErrNonNil }) {
+						continue // e.g. the error of the frame just parked, built a few lines above
+					}
 					if base, fld, isF := core.FieldOf(l.V); isF && l.Class != core.ErrNonNil {
 						sameField := func(v ssa.Value) bool {
 							b2, f2, ok := core.FieldOf(v)
@@ -795,6 +799,33 @@ func c08UnaryInproc(c *core.Ctx, key string, fn *ssa.Function) {
 // frameFieldValue: v is a load of a local frame composite literal; returns
 // the value stored to the named field.
 func frameFieldValue(v ssa.Value, field string) ssa.Value {
+	// a frame made by a constructor function of the module (dataFrame(m), errorFrame(err), …): the field value
+	// is what every return of the constructor puts there; a parameter stands for the call's argument
+	if call, ok := v.(*ssa.Call); ok {
+		fn := call.Call.StaticCallee()
+		if fn != nil && fn.Blocks != nil && fn.Pkg != nil && strings.HasPrefix(fn.Pkg.Pkg.Path(), core.ModulePath) && fn.Signature.Results().Len() == 1 {
+			var res ssa.Value
+			for _, r := range core.Returns(fn) {
+				fv := frameFieldValue(r.Results[0], field)
+				if fv == nil {
+					return nil
+				}
+				if res != nil && res != fv {
+					return nil
+				}
+				res = fv
+			}
+			if par, isPar := res.(*ssa.Parameter); isPar {
+				for i, pp := range fn.Params {
+					if pp == par && i < len(call.Call.Args) {
+						return call.Call.Args[i]
+					}
+				}
+			}
+			return res
+		}
+		return nil
+	}
 	u, ok := v.(*ssa.UnOp)
 	if !ok || u.Op != token.MUL {
 		return nil
